@@ -2474,15 +2474,36 @@ private:
 
         constexpr const term_subset& make_nterm_first(size16_t nt)
         {
-            if (nterm_first_analyzed.test(nt))
-                return nterm_first[nt];
-            nterm_first_analyzed.set(nt);
-
-            const utils::slice& s = gi.nterm_rule_slices[nt];
-            for (size_t i = 0u; i < s.n; ++i)
+            if (!nterm_first_ready)
             {
-                const rule_info& ri = gi.rule_infos[s.start + i];
-                nterm_first[nt].add(make_right_side_slice_first(ri, 0));
+                nterm_first_ready = true;
+                bool changed = true;
+                while (changed)
+                {
+                    changed = false;
+                    for (size_t r = 0u; r < rule_count; ++r)
+                    {
+                        const rule_info& ri = gi.rule_infos[r];
+                        term_subset f = nterm_first[ri.l_idx];
+                        for (size_t i = 0u; i < ri.r_elements; ++i)
+                        {
+                            const symbol& s = gi.right_sides[ri.r_idx][i];
+                            if (s.term)
+                            {
+                                f.set(s.idx);
+                                break;
+                            }
+                            f.add(nterm_first[s.idx]);
+                            if (!make_nterm_empty(s.idx))
+                                break;
+                        }
+                        if (!(f == nterm_first[ri.l_idx]))
+                        {
+                            nterm_first[ri.l_idx] = f;
+                            changed = true;
+                        }
+                    }
+                }
             }
             return nterm_first[nt];
         }
@@ -2546,6 +2567,7 @@ private:
         term_subset nterm_first[nterm_count] = { };
         nterm_subset nterm_empty_analyzed = { };
         nterm_subset nterm_first_analyzed = { };
+        bool nterm_first_ready = false;
     };
 
     constexpr static size16_t get_parse_table_idx(bool term, size16_t idx)
